@@ -1049,8 +1049,13 @@ class AnsiString:
 
         if isinstance(value, AnsiString):
             incoming_str = value._s
-            # Work on a copy so that value is never modified (value may even be self)
-            incoming_fmts = {k: _AnsiSettingPoint(list(v.add), list(v.rem)) for k, v in value._fmts.items()}
+            # Work on a copy so that value is never modified (value may even be self). The settings objects are copied
+            # as well: settings are matched by reference, and value may hold the very same objects as self (a copy of
+            # self, or self) which must not be mixed up with mine when the seams are merged below.
+            clones = {}
+            def clone(settings):
+                return [clones.setdefault(id(s), AnsiSetting(s)) for s in settings]
+            incoming_fmts = {k: _AnsiSettingPoint(clone(v.add), clone(v.rem)) for k, v in value._fmts.items()}
         else:
             raise TypeError(f'value is invalid type: {type(value)}')
 
